@@ -13,13 +13,14 @@ variable {K V σ T : Type} [DecidableEq K]
 /-- a shuffle really permutes `[0,n)` -/
 def ShufflePerm (sh : Shuffle σ) : Prop := ∀ g n, (sh g n).1.Perm (List.range n)
 
-/-- per-operation specification of an implementation -/
-structure Correct (eqVal : V → V → Bool) (I : Impl K V σ T) (Inv : T → Prop) (Live : T → K → V → Prop) : Prop where
+/-- per-operation specification of an implementation; the specification of `Delete` is only required
+(and only used) when `D` holds -/
+structure CorrectD (D : Prop) (eqVal : V → V → Bool) (I : Impl K V σ T) (Inv : T → Prop) (Live : T → K → V → Prop) : Prop where
   func : ∀ t k v v', Inv t → Live t k v → Live t k v' → v = v'
   put : ∀ t g k v, Inv t → ∃ t' g', I.put t g k v = .ok (t', g') ∧ Inv t' ∧
     ∀ k' v', Live t' k' v' ↔ (k' = k ∧ v' = v) ∨ (k' ≠ k ∧ Live t k' v')
   get : ∀ t k, Inv t → ∃ o, I.get t k = .ok o ∧ ∀ v, o = some v ↔ Live t k v
-  delete : ∀ t g k, Inv t → ∃ t' g' o, I.delete t g k = .ok (t', g', o) ∧ Inv t' ∧
+  delete : D → ∀ t g k, Inv t → ∃ t' g' o, I.delete t g k = .ok (t', g', o) ∧ Inv t' ∧
     (∀ k' v', Live t' k' v' ↔ k' ≠ k ∧ Live t k' v') ∧ ∀ v, o = some v ↔ Live t k v
   deleteAll : ∀ t, Inv t → Inv (I.deleteAll t) ∧ ∀ k v, ¬ Live (I.deleteAll t) k v
   all : ∀ t g, Inv t → (I.all t g).1.Nodup ∧ ∀ k v, (k, v) ∈ (I.all t g).1 ↔ Live t k v
@@ -33,6 +34,9 @@ structure ValidLF (dmin dmax minLF maxLF : LF) : Prop where
   minGe : dmin.num * minLF.den ≤ minLF.num * dmin.den
   lt : minLF.num * maxLF.den < maxLF.num * minLF.den
   maxLe : maxLF.num * dmax.den ≤ dmax.num * maxLF.den
+
+/-- a zero load factor in `HashOpts` selects the default -/
+def effLF (lf dflt : LF) : LF := if lf.num = 0 then dflt else lf
 
 /-- re-inserting a listing with pairwise different keys: `P r` is a predicate on tables that still
 has room for `r` insertions -/
@@ -69,6 +73,15 @@ theorem foldPut_spec (Live : T → K → V → Prop) (P : Nat → T → Prop)
       · exact Or.inl h
       · exact Or.inr ⟨Or.inr ⟨hne, hl⟩, hk⟩
 
+/-- per-operation specification of every operation -/
+abbrev Correct (eqVal : V → V → Bool) (I : Impl K V σ T) (Inv : T → Prop) (Live : T → K → V → Prop) : Prop :=
+  CorrectD True eqVal I Inv Live
+
+/-- `op` is not a `Delete` -/
+def Op.notDelete : Op K V → Prop
+  | .delete _ _ => False
+  | _ => True
+
 /-- the refinement relation between a table and a Spec map -/
 def Rel (Inv : T → Prop) (Live : T → K → V → Prop) (t : T) (s : Map K V) : Prop :=
   Inv t ∧ NodupKeys s ∧ ∀ k v, (k, v) ∈ s ↔ Live t k v
@@ -92,9 +105,9 @@ theorem allMatchGet_eq (eqVal : V → V → Bool) (get : K → Outcome (Option V
       · simp [hf, he]
 
 section
-variable {eqVal : V → V → Bool} {I : Impl K V σ T} {Inv : T → Prop} {Live : T → K → V → Prop}
+variable {D : Prop} {eqVal : V → V → Bool} {I : Impl K V σ T} {Inv : T → Prop} {Live : T → K → V → Prop}
 
-theorem Rel.get_eq (hC : Correct eqVal I Inv Live) {t : T} {s : Map K V} (h : Rel Inv Live t s) (k : K) :
+theorem Rel.get_eq (hC : CorrectD D eqVal I Inv Live) {t : T} {s : Map K V} (h : Rel Inv Live t s) (k : K) :
     I.get t k = .ok (Map.lookup s k) := by
   obtain ⟨o, ho, hspec⟩ := hC.get t k h.1
   rw [ho]
@@ -111,14 +124,14 @@ theorem Rel.get_eq (hC : Correct eqVal I Inv Live) {t : T} {s : Map K V} (h : Re
     rw [lookup_eq_some_iff h.2.1, h.2.2]
     exact (hspec v).1 rfl
 
-theorem Rel.all_perm (hC : Correct eqVal I Inv Live) {t : T} {s : Map K V} (h : Rel Inv Live t s) (g : σ) :
+theorem Rel.all_perm (hC : CorrectD D eqVal I Inv Live) {t : T} {s : Map K V} (h : Rel Inv Live t s) (g : σ) :
     (I.all t g).1.Perm s := by
   obtain ⟨hnd, hmem⟩ := hC.all t g h.1
   rw [List.perm_ext_iff_of_nodup hnd h.2.1.nodup]
   rintro ⟨k, v⟩
   rw [hmem, h.2.2]
 
-theorem sub_eq (hC : Correct eqVal I Inv Live) {t1 t2 : T} {s1 s2 : Map K V}
+theorem sub_eq (hC : CorrectD D eqVal I Inv Live) {t1 t2 : T} {s1 s2 : Map K V}
     (h1 : Rel Inv Live t1 s1) (h2 : Rel Inv Live t2 s2) (g : σ) :
     allMatchGet eqVal (I.get t2) (I.all t1 g).1 = .ok (Map.sub eqVal s1 s2) := by
   rw [allMatchGet_eq eqVal (I.get t2) (Map.lookup s2) (Rel.get_eq hC h2)]
@@ -126,7 +139,7 @@ theorem sub_eq (hC : Correct eqVal I Inv Live) {t1 t2 : T} {s1 s2 : Map K V}
   unfold Map.sub
   exact (Rel.all_perm hC h1 g).all_eq
 
-theorem equal_eq (hC : Correct eqVal I Inv Live) {t1 t2 : T} {s1 s2 : Map K V}
+theorem equal_eq (hC : CorrectD D eqVal I Inv Live) {t1 t2 : T} {s1 s2 : Map K V}
     (h1 : Rel Inv Live t1 s1) (h2 : Rel Inv Live t2 s2) (g : σ) :
     ∃ g', I.equal t1 t2 g = .ok (Map.equal eqVal s1 s2, g') := by
   rw [hC.equal]
@@ -140,8 +153,8 @@ theorem equal_eq (hC : Correct eqVal I Inv Live) {t1 t2 : T} {s1 s2 : Map K V}
     exact ⟨(I.all t2 (I.all t1 g).2).2, by simp⟩
 
 /-- one step of the Model is matched by one step of the Spec and re-establishes the relation -/
-theorem step_sim (hC : Correct eqVal I Inv Live) (st : State T σ) (ss : SState K V)
-    (ha : Rel Inv Live st.a ss.a) (hb : Rel Inv Live st.b ss.b) (op : Op K V) :
+theorem step_sim (hC : CorrectD D eqVal I Inv Live) (st : State T σ) (ss : SState K V)
+    (ha : Rel Inv Live st.a ss.a) (hb : Rel Inv Live st.b ss.b) (op : Op K V) (hD : D ∨ op.notDelete) :
     ∃ st' o, step I st op = .ok (st', o) ∧ OutEquiv o (Spec.step eqVal ss op).2 ∧
       Rel Inv Live st'.a (Spec.step eqVal ss op).1.a ∧ Rel Inv Live st'.b (Spec.step eqVal ss op).1.b := by
   have hsel : ∀ b, Rel Inv Live (st.sel b) (ss.sel b) := by
@@ -162,7 +175,11 @@ theorem step_sim (hC : Correct eqVal I Inv Live) (st : State T σ) (ss : SState 
     refine ⟨st, .val (Map.lookup (ss.sel b) k), ?_, rfl, ha, hb⟩
     simp [step, Rel.get_eq hC (hsel b) k]
   | delete b k =>
-    obtain ⟨t', g', o, hd, hinv, hlive, ho⟩ := hC.delete (st.sel b) st.g k (hsel b).1
+    have hD' : D := by
+      rcases hD with h | h
+      · exact h
+      · exact absurd h (by simp [Op.notDelete])
+    obtain ⟨t', g', o, hd, hinv, hlive, ho⟩ := hC.delete hD' (st.sel b) st.g k (hsel b).1
     have hg := Rel.get_eq hC (hsel b) k
     obtain ⟨o2, ho2, hspec2⟩ := hC.get (st.sel b) k (hsel b).1
     have hoo : o = Map.lookup (ss.sel b) k := by
@@ -204,16 +221,18 @@ theorem step_sim (hC : Correct eqVal I Inv Live) (st : State T σ) (ss : SState 
     refine ⟨{ st with g := g' }, .bool (Map.equal eqVal ss.a ss.b), by simp [step, he], rfl, ha, hb⟩
 
 /-- **refinement**: every history's trace agrees with the Spec's -/
-theorem sim (hC : Correct eqVal I Inv Live) : ∀ (ops : List (Op K V)) (st : State T σ) (ss : SState K V),
+theorem sim (hC : CorrectD D eqVal I Inv Live) : ∀ (ops : List (Op K V)) (st : State T σ) (ss : SState K V),
+    (D ∨ ∀ op ∈ ops, op.notDelete) →
     Rel Inv Live st.a ss.a → Rel Inv Live st.b ss.b → Agree (run I st ops) (Spec.run eqVal ss ops) := by
   intro ops
   induction ops with
-  | nil => intro st ss _ _; simp [run, runTrace, Spec.run, Agree]
+  | nil => intro st ss _ _ _; simp [run, runTrace, Spec.run, Agree]
   | cons op ops ih =>
-    intro st ss ha hb
+    intro st ss hD ha hb
     obtain ⟨st', o, hstep, hout, ha', hb'⟩ := step_sim hC st ss ha hb op
+      (hD.imp id (fun h => h op (List.mem_cons_self ..)))
     simp only [run, runTrace, hstep, Spec.run, Agree]
-    exact ⟨hout, ih st' _ ha' hb'⟩
+    exact ⟨hout, ih st' _ (hD.imp id (fun h o ho => h o (List.mem_cons_of_mem _ ho))) ha' hb'⟩
 
 /-- the state reached by a history (`none` if some operation failed) -/
 def reach (I : Impl K V σ T) : State T σ → List (Op K V) → Option (State T σ)
@@ -224,35 +243,39 @@ def reach (I : Impl K V σ T) : State T σ → List (Op K V) → Option (State T
     | _ => none
 
 /-- every history reaches a state, and the invariant holds there for both tables -/
-theorem reach_inv (hC : Correct eqVal I Inv Live) : ∀ (ops : List (Op K V)) (st : State T σ) (ss : SState K V),
+theorem reach_inv (hC : CorrectD D eqVal I Inv Live) : ∀ (ops : List (Op K V)) (st : State T σ) (ss : SState K V),
+    (D ∨ ∀ op ∈ ops, op.notDelete) →
     Rel Inv Live st.a ss.a → Rel Inv Live st.b ss.b →
     ∃ st', reach I st ops = some st' ∧ Inv st'.a ∧ Inv st'.b := by
   intro ops
   induction ops with
-  | nil => intro st ss ha hb; exact ⟨st, rfl, ha.1, hb.1⟩
+  | nil => intro st ss _ ha hb; exact ⟨st, rfl, ha.1, hb.1⟩
   | cons op ops ih =>
-    intro st ss ha hb
+    intro st ss hD ha hb
     obtain ⟨st', o, hstep, _, ha', hb'⟩ := step_sim hC st ss ha hb op
+      (hD.imp id (fun h => h op (List.mem_cons_self ..)))
     simp only [reach, hstep]
-    exact ih st' _ ha' hb'
+    exact ih st' _ (hD.imp id (fun h o ho => h o (List.mem_cons_of_mem _ ho))) ha' hb'
 
 /-- after any history, one more operation neither panics nor diverges -/
-theorem step_ok_of_reach (hC : Correct eqVal I Inv Live) (ops : List (Op K V)) (st : State T σ) (ss : SState K V)
-    (ha : Rel Inv Live st.a ss.a) (hb : Rel Inv Live st.b ss.b) (op : Op K V) :
+theorem step_ok_of_reach (hC : CorrectD D eqVal I Inv Live) (ops : List (Op K V)) (st : State T σ) (ss : SState K V)
+    (ha : Rel Inv Live st.a ss.a) (hb : Rel Inv Live st.b ss.b) (op : Op K V)
+    (hD : D ∨ ((∀ o ∈ ops, o.notDelete) ∧ op.notDelete)) :
     ∃ st' r, reach I st ops = some st' ∧ step I st' op = .ok r := by
-  have : ∀ (ops : List (Op K V)) (st : State T σ) (ss : SState K V),
+  have : ∀ (ops : List (Op K V)) (st : State T σ) (ss : SState K V), (D ∨ ∀ o ∈ ops, o.notDelete) →
       Rel Inv Live st.a ss.a → Rel Inv Live st.b ss.b →
       ∃ (st' : State T σ) (ss' : SState K V), reach I st ops = some st' ∧ Rel Inv Live st'.a ss'.a ∧ Rel Inv Live st'.b ss'.b := by
     intro ops
     induction ops with
-    | nil => intro st ss ha hb; exact ⟨st, ss, rfl, ha, hb⟩
+    | nil => intro st ss _ ha hb; exact ⟨st, ss, rfl, ha, hb⟩
     | cons op ops ih =>
-      intro st ss ha hb
+      intro st ss hD ha hb
       obtain ⟨st', o, hstep, _, ha', hb'⟩ := step_sim hC st ss ha hb op
+        (hD.imp id (fun h => h op (List.mem_cons_self ..)))
       simp only [reach, hstep]
-      exact ih st' _ ha' hb'
-  obtain ⟨st', ss', hr, ha', hb'⟩ := this ops st ss ha hb
-  obtain ⟨st'', o, hstep, _⟩ := step_sim hC st' ss' ha' hb' op
+      exact ih st' _ (hD.imp id (fun h o ho => h o (List.mem_cons_of_mem _ ho))) ha' hb'
+  obtain ⟨st', ss', hr, ha', hb'⟩ := this ops st ss (hD.imp id (fun h => h.1)) ha hb
+  obtain ⟨st'', o, hstep, _⟩ := step_sim hC st' ss' ha' hb' op (hD.imp id (fun h => h.2))
   exact ⟨st', (st'', o), hr, hstep⟩
 
 end
